@@ -60,6 +60,12 @@ fn tight_cases(rng: &mut Rng, stack: bool) -> Vec<FileCase> {
             let ast = vec![plain("halt").lab("target"), blkw(pad), mk_pc(k, rng, "target")];
             out.push(FileCase { tag: format!("tight-back-{}-{}", k, tag), ast, exec: false, stack_hint: stack, input: vec![] });
         }
+        // two identical backward references in a row, the first at the very edge of the field, the second one past it
+        let ast = vec![plain("halt").lab("target"), blkw(half - 2), mk_pc(k, rng, "target"), mk_pc(k, rng, "target")];
+        let twin = ast[2].clone();
+        let mut ast = ast;
+        ast[3] = twin;
+        out.push(FileCase { tag: format!("tight-back-twin-{}", k), ast, exec: false, stack_hint: stack, input: vec![] });
         for (pad, tag) in [(half - 1, "in"), (half, "out")] {
             // forward: reference on the first statement, label on the last one; offset = pad
             let ast = vec![mk_pc(k, rng, "target"), blkw(pad), plain("halt").lab("target")];
